@@ -1,1 +1,21 @@
--- stub: no theorems of C08 yet
+import WmModel.Props.C08
+import WmModel.Props.C08Tie
+#print axioms Wm.Route.ctx5_addHandlerContext
+#print axioms Wm.Route.ctx5_addHandlerContext_idem
+#print axioms Wm.Route.ctx_values_partial
+#print axioms Wm.Route.ctx_values_nonempty
+#print axioms Wm.Route.stale_context_shows_through
+#print axioms Wm.Route.ctx_in_handler_partial
+#print axioms Wm.Route.ctx_on_produced_partial
+#print axioms Wm.Route.handleOne_fn
+#print axioms Wm.Route.publishes_only_own
+#print axioms Wm.Route.published_iff
+#print axioms Wm.Route.nopub_middleware_outputs_nack
+#print axioms Wm.Route.routes_to_own_fn
+#print axioms Wm.Route.route_order_irrelevant
+#print axioms Wm.Route.only_own_function
+#print axioms Wm.Route.subscriptions_bijective
+#print axioms Wm.RouteGo.model_ctx_law
+#print axioms Wm.RouteGo.extracted_ctx_law
+#print axioms Wm.RouteGo.extracted_ctx_simulates_model
+#print axioms Wm.RouteGo.extracted_ctx_describes_empty
